@@ -49,15 +49,46 @@ func circlePoints(t [3]int64) [][3]int64 {
 func grid(r *rng.R, lo, hi int, step float64) float64 { return float64(r.Range(lo, hi)) * step }
 
 // Arc draws an arc starting at (sx, sy). mode: 0 any, 1 circle, 2 axis-aligned ellipse.
-func Arc(r *rng.R, sx, sy float64, mode int) *ArcInfo {
+func Arc(r *rng.R, sx, sy float64, mode int) *ArcInfo { return arcWith(r, sx, sy, mode, false) }
+
+// ArcSameRadii draws a rotated arc with exactly the radii of the arc drawn last by Arc(.., 0) and another rotation
+// (the same Pythagorean triples, another arrangement of the rotation's cosine and sine)
+func ArcSameRadii(r *rng.R, sx, sy float64) *ArcInfo {
+	if !lastArc.ok {
+		return Arc(r, sx, sy, 0)
+	}
+	return arcWith(r, sx, sy, 0, true)
+}
+
+var lastArc struct {
+	ok     bool
+	tt, tp [3]int64
+	kx, ky int
+	s      float64
+	rotK   int
+}
+
+func arcWith(r *rng.R, sx, sy float64, mode int, reuse bool) *ArcInfo {
 	tt := rng.Pick(r, triples)
+	if reuse {
+		tt = lastArc.tt
+	}
 	pts := circlePoints(tt)
 	hT := tt[2]
 	// rotation
 	var cs, sn, hP int64 = 1, 0, 1
 	if mode == 0 {
 		tp := rng.Pick(r, triples)
-		switch r.Intn(6) {
+		rotK := r.Intn(6)
+		if reuse {
+			tp = lastArc.tp
+			rotK = 2 + (lastArc.rotK-2+1+r.Intn(3))%4 // another one of the four arrangements with the same denominator
+			if lastArc.rotK < 2 {
+				rotK = 2 + r.Intn(4)
+			}
+		}
+		lastArc.tp, lastArc.rotK = tp, rotK
+		switch rotK {
 		case 0:
 			cs, sn, hP = 1, 0, 1
 		case 1:
@@ -81,6 +112,9 @@ func Arc(r *rng.R, sx, sy float64, mode int) *ArcInfo {
 	s *= rng.Pick(r, []float64{1, 0.5, 0.25, 0.125})
 	kx := r.Range(1, 6)
 	ky := r.Range(1, kx)
+	if reuse && lastArc.rotK >= 2 {
+		s, kx, ky = lastArc.s, lastArc.kx, lastArc.ky
+	}
 	if mode == 1 {
 		ky = kx
 	} else if ky == kx {
@@ -94,6 +128,9 @@ func Arc(r *rng.R, sx, sy float64, mode int) *ArcInfo {
 		ky = kx - 1
 	}
 	rx, ry := float64(kx)*unit*s, float64(ky)*unit*s
+	if mode == 0 {
+		lastArc.ok, lastArc.tt, lastArc.kx, lastArc.ky, lastArc.s = true, tt, kx, ky, s
+	}
 	if rx == ry {
 		cs, sn, hP = 1, 0, 1 // ArcTo canonicalises circles to rot = 0
 	}
@@ -198,8 +235,14 @@ func Curved(r *rng.R) CPath {
 		}
 	case 8:
 		p.Family = "arc-rotated"
-		for n := r.Range(1, 2); n > 0; n-- {
-			add(CSeg{Kind: 'A', Arc: Arc(r, pos[0], pos[1], 0)})
+		add(CSeg{Kind: 'A', Arc: Arc(r, pos[0], pos[1], 0)})
+		if r.Bool() {
+			if r.Bool() { // a second arc of the same radii with another rotation
+				p.Family = "arc-rotated-same-radii"
+				add(CSeg{Kind: 'A', Arc: ArcSameRadii(r, pos[0], pos[1])})
+			} else {
+				add(CSeg{Kind: 'A', Arc: Arc(r, pos[0], pos[1], 0)})
+			}
 		}
 	default:
 		p.Family = "mixed"
